@@ -154,7 +154,7 @@ def quantifier(ev: Ev, which: str, g: ast.GeneratorExp | ast.ListComp) -> Val:
 			rng = z3.And(0 <= q, q < z3.Length(seq.term))
 		else:
 			raise EngineError(f'quantifier over {seq.ty}')
-	sub = Ev(ev.eng, ev.fn, State(env, ev.st.pc), ev.oracle, 'spec', ev.old)
+	sub = Ev(ev.eng, ev.fn, State(env, ev.st.pc), ev.oracle, 'spec', ev.old, list(ev.guards) + [rng])
 	conds = [sub.truth(c) for c in gen.ifs]
 	body = sub.truth(g.elt)
 	if which == 'all':
@@ -457,7 +457,7 @@ def str_method(ev: Ev, s: Val, name: str, args: list[Val], n: ast.Call) -> Val:
 		return Val(BOOL, z3.SuffixOf(p.term, x))
 	if name == 'count':
 		needle = ev.coerce(args[0], STR)
-		f = ev.rec('rf_count', [STR, STR], INT, lambda a, b, me: z3.If(z3.Or(z3.IndexOf(a, b, 0) < 0, z3.Length(b) == 0), 0, 1 + me(z3.SubString(a, z3.IndexOf(a, b, 0) + z3.Length(b), z3.Length(a)), b)))
+		f = ev.rec('rf_count', [STR, STR], INT, lambda a, b, me: z3.If(z3.Or(z3.IndexOf(a, b, 0) < 0, z3.Length(b) == 0), 0, 1 + me(z3.SubString(a, z3.IndexOf(a, b, 0) + z3.Length(b), z3.Length(a) - (z3.IndexOf(a, b, 0) + z3.Length(b))), b)))
 		return Val(INT, f(x, needle.term))
 	if name == 'split':
 		if not args:
@@ -495,7 +495,7 @@ def str_method(ev: Ev, s: Val, name: str, args: list[Val], n: ast.Call) -> Val:
 			if s.is_conc() and s.conc == '':
 				parts = [it.term if c is None else z3.If(c, it.term, z3.StringVal('')) for c, it in lst.items]
 				return Val(STR, parts[0] if len(parts) == 1 else z3.Concat(*parts))
-		return Val(STR, join_fn(ev)(x, lst.term, z3.Length(lst.term)))
+		return Val(STR, join_fn(ev)(x, lst.term))
 	if name == 'replace':
 		a, b = ev.coerce(args[0], STR), ev.coerce(args[1], STR)
 		f = ev.rec('rf_replace_all', [STR, STR, STR], STR, lambda h, p, q, me: z3.If(z3.Or(z3.IndexOf(h, p, 0) < 0, z3.Length(p) == 0), h,
@@ -511,12 +511,14 @@ def str_method(ev: Ev, s: Val, name: str, args: list[Val], n: ast.Call) -> Val:
 def split_fn(ev: Ev):
 	S = TList(STR)
 	return ev.rec('rf_split', [STR, STR], S, lambda a, b, me: z3.If(z3.Or(z3.IndexOf(a, b, 0) < 0, z3.Length(b) == 0), z3.Unit(a),
-		z3.Concat(z3.Unit(z3.SubString(a, 0, z3.IndexOf(a, b, 0))), me(z3.SubString(a, z3.IndexOf(a, b, 0) + z3.Length(b), z3.Length(a)), b))))
+		z3.Concat(z3.Unit(z3.SubString(a, 0, z3.IndexOf(a, b, 0))), me(z3.SubString(a, z3.IndexOf(a, b, 0) + z3.Length(b), z3.Length(a) - (z3.IndexOf(a, b, 0) + z3.Length(b))), b))))
 
 
 def join_fn(ev: Ev):
+	"""sep.join(xs), by recursion on the tail (matches the shape of rf_split)."""
 	S = TList(STR)
-	return ev.rec('rf_join', [STR, S, INT], STR, lambda sep, xs, k, me: z3.If(k <= 0, z3.StringVal(''), z3.If(k == 1, xs[0], z3.Concat(me(sep, xs, k - 1), sep, xs[k - 1]))))
+	return ev.rec('rf_join', [STR, S], STR, lambda sep, xs, me: z3.If(z3.Length(xs) <= 0, z3.StringVal(''), z3.If(z3.Length(xs) == 1, xs[0],
+		z3.Concat(xs[0], sep, me(sep, z3.Extract(xs, 1, z3.Length(xs) - 1))))))
 
 
 def write_back(ev: Ev, recv_node: ast.expr, new: Val) -> None:
@@ -829,6 +831,8 @@ def modular_call(ev: Ev, fs: source.FuncSrc, c: Contract, args: list[Val], kwarg
 		env[g] = ev.eng.fresh(ev.eng.tenv.parse(t), f'ghost_{g}')  # type: ignore[arg-type]
 	pre = State(dict(env), list(ev.st.pc))
 	sub = Ev(ev.eng, callee, pre, ev.oracle, 'spec')
+	for k, expr in c.lets.items():
+		env[k] = pre.env[k] = sub.eval(ast.parse(expr, mode='eval').body)
 	line = getattr(ev, 'cur_line', 0)
 	for r in c.requires:
 		goal = sub.truth(ast.parse(r, mode='eval').body)
